@@ -186,6 +186,7 @@ type transFacts struct {
 	MidnightOverlap bool // backward change whose repeated wall-clock interval contains 00:00
 	OffHour         bool // whole-hour change that does not happen on a whole wall-clock hour
 	DaySkip         bool // forward change whose skipped wall-clock interval contains a whole calendar day
+	MultiHour       bool // change by a whole number of hours other than one
 }
 
 // shape: ONE name for the matchers of known_findings.json - the most disruptive shape among
@@ -199,10 +200,12 @@ func (f transFacts) shape() string {
 		return "non_hour_delta"
 	case f.MidnightGap:
 		return "midnight_gap"
-	case f.MidnightOverlap:
-		return "midnight_overlap"
 	case f.OffHour:
 		return "off_hour"
+	case f.MidnightOverlap:
+		return "midnight_overlap"
+	case f.MultiHour:
+		return "multi_hour_delta"
 	case f.Any:
 		return "hour_aligned"
 	}
@@ -247,6 +250,9 @@ func (z *zoneTab) factsIn(lo, hi int64) transFacts {
 			f.NonHour = true
 		} else if (tr.Start+before)%3600 != 0 {
 			f.OffHour = true
+		}
+		if d%3600 == 0 && d != 3600 && d != -3600 {
+			f.MultiHour = true
 		}
 		if d > 0 && containsMidnight(tr.Start+before, tr.Start+tr.Off) {
 			f.MidnightGap = true
